@@ -2839,4 +2839,43 @@ theorem parseReverseProxy_fuel (dur : Bytes → Option Int) (addr : Bytes → Op
     · rw [fwd_bound hf]; simp [Disp.bound]; omega
   · simp
 
+theorem parseSel_header_field (dur : Bytes → Option Int) (fuel l : Nat) (F : Bytes) (hF : F ≠ lbrace) :
+    parseSel dur (fuel + 1) [⟨str "header", l⟩, ⟨F, l⟩] = .ok [.header F] := by
+  have hk : simpleKind (str "header") = none := by decide
+  have h1 : str "header" ≠ str "weighted_round_robin" := by decide
+  have h2 : str "header" ≠ str "random_choose" := by decide
+  have h3 : str "header" ≠ str "query" := by decide
+  unfold parseSel
+  simp only [hk, h1, h2, h3, if_false, false_or, if_true]
+  have hd : ((Disp.mk [⟨str "header", l⟩, ⟨F, l⟩] 0 0).next.2).nextArg = (true, ⟨[⟨str "header", l⟩, ⟨F, l⟩], 2, 0⟩) := by
+    simp [Disp.next, Disp.nextArg, Disp.nextOnSameLine, Disp.val, hF]
+  rw [hd]
+  simp only [if_true]
+  have hb : (Disp.mk [⟨str "header", l⟩, ⟨F, l⟩] 2 0).nextBlock 0 = (false, ⟨[⟨str "header", l⟩, ⟨F, l⟩], 2, 0⟩) := by
+    simp [Disp.nextBlock, Disp.nextOnSameLine]
+  have : blockLoop dur false (parseSel dur fuel) ([(⟨str "header", l⟩ : Tok), ⟨F, l⟩].length + 2) ⟨[⟨str "header", l⟩, ⟨F, l⟩], 2, 0⟩ ⟨none, 0⟩
+      = .ok ⟨none, 0⟩ := by
+    show blockLoop dur false (parseSel dur fuel) (3 + 1) _ _ = _
+    unfold blockLoop
+    rw [hb]
+    simp
+  rw [this]
+  simp [Disp.val]
+
+theorem parseSel_simple_alone (dur : Bytes → Option Int) (fuel l k : Nat) (name : Bytes)
+    (hk : simpleKind name = some k) : parseSel dur (fuel + 1) [⟨name, l⟩] = .ok [.simple k] := by
+  unfold parseSel
+  simp only [hk]
+  have : ((Disp.mk [⟨name, l⟩] 0 0).next.2).nextArg.1 = false := by
+    simp [Disp.next, Disp.nextArg, Disp.nextOnSameLine]
+  simp [this]
+
+theorem parseSel_simple_with_argument (dur : Bytes → Option Int) (fuel l k : Nat) (name a : Bytes)
+    (hk : simpleKind name = some k) (ha : a ≠ lbrace) : parseSel dur (fuel + 1) [⟨name, l⟩, ⟨a, l⟩] = .err := by
+  unfold parseSel
+  simp only [hk]
+  have : ((Disp.mk [⟨name, l⟩, ⟨a, l⟩] 0 0).next.2).nextArg.1 = true := by
+    simp [Disp.next, Disp.nextArg, Disp.nextOnSameLine, Disp.val, ha]
+  simp [this]
+
 end CaddyModel.C08
